@@ -106,6 +106,24 @@ macro_rules! length_mismatch {
 length_mismatch!(c26_q_matches_length_mismatch_1, 1);
 length_mismatch!(c26_q_matches_length_mismatch_3, 3);
 
+/// List lengths that differ in opposite directions (one list longer, the other
+/// shorter by the same amount, so that the total number of ids is unchanged)
+/// never match either.
+#[kani::proof]
+#[kani::unwind(8)]
+fn c26_q_matches_length_tradeoff() {
+    let ci: [u32; 2] = any_small();
+    let co: [u32; 2] = any_small();
+    kani::assume(ci[0] != ci[1] && co[0] != co[1]);
+    let plan = CachedPlan::new(&ids(ci), &ids(co), Vec::new());
+    let q3: [u32; 3] = any_small();
+    let q1: [u32; 1] = any_small();
+    kani::cover!(q3[0] == ci[0] && q3[1] == ci[1], "longer list starts with the cached ids");
+    assert!(!plan.matches(&ids(q3), &ids(q1)), "3 inputs + 1 output matched a plan cached for 2 + 2");
+    assert!(!plan.matches(&ids(q1), &ids(q3)), "1 input + 3 outputs matched a plan cached for 2 + 2");
+    std::mem::forget(plan);
+}
+
 /// `first_duplicate_by` (the planner's duplicate check) returns Some iff a
 /// duplicate exists, and what it returns is a duplicated element.
 #[kani::proof]
